@@ -297,7 +297,7 @@ def build_exact(recipe, data=None, variant=0):
         )
     elif fam == "sgpr":
         z = make_inputs(ds + 11, [], recipe["m"], d)
-        covar = K.InducingPointKernel(K.ScaleKernel(base), inducing_points=z, likelihood=lik)
+        covar = K.InducingPointKernel(K.ScaleKernel(base), inducing_points=z, likelihood=lik, active_dims=tuple(range(d)) if recipe.get("ipk_active_dims") else None)
     elif fam == "rff":
         torch.manual_seed(recipe.get("init_seed", 0))  # RFF weights are drawn at construction
         covar = K.ScaleKernel(K.RFFKernel(num_samples=recipe["rff_samples"], num_dims=None if recipe.get("rff_lazy") else d))
@@ -401,6 +401,7 @@ def gen_exact_recipe(rng, families=None, small=True):
     elif fam == "sgpr":
         r["m"] = rng.randint(2, 5)
         r["kernel"] = rng.choice(["rbf", "matern25", "rq", "sum"])
+        r["ipk_active_dims"] = rng.random() < 0.4  # an active_dims buffer on the inducing point kernel itself
     elif fam == "rff":
         r["rff_samples"] = rng.choice([4, 10])
         r["rff_lazy"] = rng.random() < 0.4  # input dimension unknown at construction: weights drawn at the first evaluation
